@@ -147,6 +147,19 @@ CLAIMED = {
              "outside the claim; for R obligations the claim is for strings of every length over characters up to U+2FFFF.", ref="DESIGN.md section 3 C17"),
 }
 
+CLAIMED["C16"] = dict(
+    technique="CrossHair symbolic strings through rdflib's SPARQL-JSON result mapping (term classes replaced by recorders, json.dumps/loads by a structural copy)",
+    text="Partial claim: only the mapping between result tables and SPARQL-JSON objects. termToJSON / parseJsonTerm for one term of each kind "
+         "whose lexical form, language tag and datatype IRI are symbolic strings (an empty, i.e. falsy, content included): the object uses the "
+         "SPARQL-JSON vocabulary and reads back as the same term; JSONResultSerializer.serialize -> JSONResult for 6 table shapes over two "
+         "variables (bound/unbound cells, all-unbound rows, no rows) with symbolic cell contents: same variables in order, same row sequence, "
+         "each cell bound to an equal term or unbound; both ASK answers. JSON text (json/orjson), SPARQL XML, CSV and TSV are NOT covered "
+         "(C codecs / a pyparsing grammar over term contents that cannot be symbolic).",
+    note="Trusted base: CrossHair 0.0.110's model of Python str/dict, z3, the recorder classes standing for URIRef/Literal/BNode inside the "
+         "jsonresults module (a term with empty text is falsy, as rdflib's str-based terms are), the structural JSON copy. The claim says nothing "
+         "about the text level of any format.",
+    ref="DESIGN.md section 3 C16")
+
 NA = {
     "C06": "document-level quad round trips run json/expat/regex scanners over text built from term contents; contents cannot be symbolic (C-level str.__new__), leaving only membership booleans = enumeration, not solver-based checking",
     "C12": "every parser keys its blank-node label map on text extracted by regex/SAX/JSON; a symbolic label is realised by that extraction (probe: no verdict in 300 s), what remains is a boolean 'same label or not'",
